@@ -1,12 +1,14 @@
 PROP = {
     "id": "C19",
     "theorem_modules": ["Verif.Properties.C19"],
-    "min_theorems": 4,
+    "min_theorems": 7,
     "required_theorems": [
         "Verif.Properties.C19.length_getKey",
         "Verif.Properties.C19.slice_bounds",
         "Verif.Properties.C19.hex_roundtrip",
-        "Verif.Properties.C19.index_aligned_partial",
+        "Verif.Properties.C19.index_aligned",
+        "Verif.Properties.C19.count",
+        "Verif.Properties.C19.split_join",
     ],
     "streams": [
         {"name": "str", "driver": "drv_str",
@@ -16,8 +18,9 @@ PROP = {
     "technique": "Lean 4 proof over a byte-level port of interpreter/value_string.go, parametric in the segmentation, against a cluster-list spec + correspondence stream",
     "level_text": "Lean theorems for an arbitrary segmentation into non-empty clusters about a byte-level port of "
                   "interpreter/value_string.go: length / indexing (bounds exact), slice (fails exactly for from<0, to>length, "
-                  "from>to; otherwise the bytes cut out are the clusters from..to-1), soundness of the aligned search (a "
-                  "reported match starts at a cluster start and covers whole clusters equal to the needle), hex round trip. "
+                  "from>to; otherwise the bytes cut out are the clusters from..to-1), the aligned search = the cluster-list search "
+                  "(the first cluster index at which whole clusters concatenate to the needle: soundness, completeness, "
+                  "minimality), count and split = the greedy cluster-list specs, split then join gives back the bytes, hex round trip. "
                   "Tied to /repo by stream `str`: strings biased to combining marks, ZWJ emoji, skin tones, regional "
                   "indicators, Hangul syllables and jamo, CR LF, Indic conjuncts, prepend characters and empty strings; "
                   "needles from cluster-aligned and misaligned fragments; every operation (length, index, slice, iteration, "
@@ -25,8 +28,9 @@ PROP = {
                   "ASCII toLower) through *interpreter.StringValue directly and through scripts in both engines; Go is "
                   "compared with the model and, independently, with an executable cluster-list spec (first aligned "
                   "occurrence, greedy count/split).",
-    "level_note": "Partial: minimality/completeness of indexOf and the count/split/replaceAll = spec equalities are "
-                  "correspondence-checked against the executable spec, not proved. NFC (x/text) and UAX #29 segmentation "
+    "level_note": "Partial: replaceAll = spec is correspondence-checked against the executable spec, not proved; count / "
+                  "split are proved under the segmentation assumption SegStable (decided by the driver on every count / split "
+                  "line: tag seg-stable). NFC (x/text) and UAX #29 segmentation "
                   "(rivo/uniseg) are parameters supplied by the harness: that the cluster sequence is the Unicode-correct "
                   "one is not decided here. toLower is compared for ASCII input only.",
     "assumptions": ["the segmentation of a substring cut at cluster boundaries is the corresponding sub-list of clusters "
